@@ -63,8 +63,25 @@ def run(F, R, tier):
     if r1.anchor(cz, "compress_zlib"):
         comp = [M.callee(t) for _, t in cz.calls(re.compile(r"Compression"))]
         r1.site("writer compression: %s" % [L.short(c) for c in comp], cz.rec["span"])
-        r1.require(any(re.search(r"Compression as core::default::Default>::default$|Compression::default$", c) for c in comp), ("compress_zlib", "compression-level"), "the writer no longer uses Compression::default(): the zlib header bytes (and the magic prefix) change")
-    r1.floor(2)
+        isdef = lambda c: re.search(r"Compression as core::default::Default>::default$|Compression::default$", c) is not None  # noqa: E731
+        r1.require(bool(comp) and all(isdef(c) for c in comp), ("compress_zlib", "compression-level"), "the writer does not always use Compression::default() (%s): the zlib header bytes — and with them the magic prefix the reader tests — change for some bitmaps" % [L.short(c) for c in comp if not isdef(c)])
+    # and, on the decision table, every encoder is created with that level whatever the input
+    czf = RB + "::compress_zlib"
+    if F.hir(czf) is not None:
+        tabz = SR.Table(F, czf, opaque=r"ZlibEncoder(<.*>)?::new$|Compression::\w+$|Compression as core::default::Default>::default$|write_all$|finish$", rule=r1)
+        okz = bool(tabz.paths)
+        for q in tabz.paths:
+            encs = q.calls(r"ZlibEncoder(<.*>)?::new$")
+            for e in encs:
+                lv = sym.term(e.args[1]) if len(e.args) > 1 else None
+                good = isinstance(lv, tuple) and lv[:1] == ("call",) and re.search(r"default$", lv[1]) is not None and "Compression" in lv[1]
+                if not r1.require(good, ("compress_zlib", "compression-level"), "an encoder is created with compression level %s: the header the reader's legacy test relies on is only written by Compression::default()" % sym.fmt(lv) if lv else "?"):
+                    okz = False
+            if not encs and SR.is_success(q.ret) and not SR.is_failure(q.ret):
+                okz = False
+                r1.fail(("compress_zlib", "compression-level"), "compress_zlib succeeds without a zlib encoder")
+        r1.site("compress_zlib: every ZlibEncoder is created with Compression::default() on %d path(s): %s" % (len(tabz.paths), okz))
+    r1.floor(3)
 
     # ------------------------------------------------------------------ R2 writer/reader pairing
     r2 = R.rule("C06-R2", "T7", "serialize ↔ deserialize use the same base (Base64Url), zlib both ways with complete writes, roaring serialize_into ↔ deserialize_from; to_endpoint ↔ try_from_endpoint share DATA_URL_PATTERN")
@@ -259,53 +276,63 @@ def run(F, R, tier):
     r3.floor(9)
 
     # ------------------------------------------------------------------ R4 status entry
-    r4 = R.rule("C06-R4", "T2+T6", "RevocationBitmapStatus::try_from: type equality, index property is a string parsed as u32, every `index` query pair equals it; accessors read the same property")
+    r4 = R.rule("C06-R4", "T8+T6", "RevocationBitmapStatus::try_from, on its decision table: accepted only with type == TYPE, the revocationBitmapIndex property present, a string, parsed as u32 ✓, and every `index` query pair of the id parsed ✓ and equal to it; the status wrapped is the validated one; index() returns the parse of that same property of the wrapped status and nothing else")
     cands = F.find(r"^<identity_credential::credential::revocation_bitmap_status::RevocationBitmapStatus as core::convert::TryFrom<identity_credential::credential::status::Status>>::try_from$")
+    OPQ4 = r"try_index_to_u32$|query_pairs$|Map(<.*>)?::get$|::get$"
+    ev4 = sym.Evaluator(F)
+    IDXP = ev4.const_value(RBS + "::INDEX_PROPERTY")
+    TYPEC = ev4.const_value(RBS + "::TYPE")
     if r4.require(bool(cands), ("RevocationBitmapStatus::try_from", "ANCHOR"), "TryFrom<Status> not found"):
         fn = cands[0]
-        h = F.hir(fn)
-        env = H.Env(h)
-        tree, infos = L.exit_infos(h)
-        for e in infos:
-            if not L.is_success_exit(e):
+        tab = SR.Table(F, fn, opaque=OPQ4, rule=r4)
+        ST = SR.param("status")
+        okf = bool(tab.ok())
+        saw_mismatch = False
+        for q in tab.paths:
+            gets = [e for e in q.calls(r"::get$") if SR.pure(e.args[0], SR.fld("properties", base=ST)) and e.args[1] == IDXP]
+            tis = q.calls(r"try_index_to_u32$")
+            prop = [e for e in tis if gets and SR.derives(e.args[0], ("payload", gets[0].result.t, "Some", 0))]
+            qidx = [e for e in tis if SR.derives(e.args[0], SR.fld("id", base=ST))]
+            if SR.is_failure(q.ret):
+                # a query index that parsed but differs from the property → rejected
+                if prop and qidx and q.succeeded(prop[0]) is True and q.succeeded(qidx[0]) is True:
+                    neq = [c for (a, c, _, _) in q.decisions if a[0] == "eq" and {("payload", prop[0].result.t, "Ok", 0), ("payload", qidx[0].result.t, "Ok", 0)} == {a[1], a[2]}]
+                    if neq == [False]:
+                        saw_mismatch = True
                 continue
-            type_ok = False
-            for c in e.conds:
-                if c[0] == "if" and c[2] is False:
-                    cc = H.strip(c[1])
-                    if cc.get("k") == "binary" and cc["op"] == "Ne":
-                        oo = H.origins(cc["l"], env) | H.origins(cc["r"], env)
-                        if any(o[:3] == ("param", "status", "type_") for o in oo) and any(o[0] == "def" and o[1].endswith("RevocationBitmapStatus::TYPE") for o in oo):
-                            type_ok = True
-            r4.site("try_from: Ok requires status.type_ == TYPE: %s" % type_ok, e.node.get("sp"))
-            r4.require(type_ok, (fn, "type-eq"), "a status of another type can be accepted as RevocationBitmapStatus")
-            tried = {(H.fn_name(c) or "").rsplit("::", 1)[-1] for c in e.tried}
-            r4.require("try_index_to_u32" in tried, (fn, "index-parsed"), "Ok is reachable without the index property having been parsed as u32")
-            _, inner = H.ctor_class(e.node)
-            r4.require(H.origins(inner, env) == {("param", "status")}, (fn, "wraps"), "the status wrapped is not the validated one")
-        loops = L.for_loops(h)
-        okq = False
-        for it, pat, body, _ in loops:
-            io = H.origins(it, env, accessors=re.compile(r"(DIDUrl|Url)::query_pairs$"))
-            for n in H.walk(body):
-                if n.get("k") == "if":
-                    cc = H.strip(n["cond"])
-                    if cc.get("k") == "binary" and cc["op"] == "Eq" and "index" in H.literals(cc):
-                        inner_g = L.block_guards(n["then"])
-                        for cond, oc, node in inner_g:
-                            c2 = H.strip(cond)
-                            if c2.get("k") == "binary" and c2["op"] == "Ne" and oc.startswith("Err("):
-                                names = {H.local_name(c2["l"]), H.local_name(c2["r"])}
-                                if names == {"index", "revocation_bitmap_index"} and any(o[:3] == ("param", "status", "id") for o in io):
-                                    okq = True
-                                    r4.site("try_from: every `index` query pair must equal revocationBitmapIndex", node["sp"])
-        r4.require(okq, (fn, "query-index"), "an `index` query pair different from revocationBitmapIndex is not rejected")
-        # string-typed index
-        ifl = [n for n in H.walk(H.root(h)) if n.get("k") == "if" and H.strip(n["cond"]).get("k") == "letexpr" and "String" in H.pat_str(H.strip(n["cond"])["pat"])]
-        r4.require(len(ifl) == 1 and H.diverges(ifl[0]["else"]) if ifl and ifl[0].get("else") else False, (fn, "index-string"), "a non-string index property is not rejected")
-    ih = F.hir(RBS + "::index")
-    if r4.anchor(ih, RBS + "::index"):
-        consts = {x.get("res", {}).get("def") for x in H.walk(H.root(ih)) if x.get("k") == "path"}
-        r4.site("RevocationBitmapStatus::index reads %s" % sorted(c.rsplit("::", 1)[-1] for c in consts if c and c.endswith("PROPERTY")))
-        r4.require(any(c and c.endswith("RevocationBitmapStatus::INDEX_PROPERTY") for c in consts), (RBS + "::index", "property"), "index() does not read INDEX_PROPERTY")
-    r4.floor(3)
+            where = q.describe()[-200:]
+            t_ok = any(a[0] == "eq" and c is True and {sym.term(TYPEC), SR.fld("type_", base=ST)} == {a[1], a[2]} for (a, c, _, _) in q.decisions)
+            if not r4.require(t_ok, (fn, "type-eq"), "a status of another type can be accepted as RevocationBitmapStatus — …%s" % where):
+                okf = False
+            if not r4.require(bool(gets) and q.succeeded(gets[0]) is True and bool(prop) and q.succeeded(prop[0]) is True, (fn, "index-parsed"), "Ok is reachable without the index property having been parsed as u32"):
+                okf = False
+                continue
+            strv = q.variant.get(("payload", gets[0].result.t, "Some", 0))
+            if not r4.require(strv == "String", (fn, "index-string"), "a non-string index property is not rejected"):
+                okf = False
+            for e in qidx:
+                good = q.succeeded(e) is True and any(a[0] == "eq" and c is True and {("payload", prop[0].result.t, "Ok", 0), ("payload", e.result.t, "Ok", 0)} == {a[1], a[2]} for (a, c, _, _) in q.decisions)
+                if not r4.require(good, (fn, "query-index"), "an `index` query pair different from revocationBitmapIndex is not rejected"):
+                    okf = False
+            out = q.ret.fields[0] if isinstance(q.ret, sym.V) and q.ret.fields else None
+            inner = out.f.get("0") if isinstance(out, sym.St) else (out.fields[0] if isinstance(out, sym.V) and out.fields else out)
+            if not r4.require(inner is not None and SR.pure(inner, ST), (fn, "wraps"), "the status wrapped is not the validated one"):
+                okf = False
+        r4.require(saw_mismatch or not tab.paths, (fn, "query-index"), "no path rejects an `index` query pair that differs from revocationBitmapIndex (the id's query is not examined)")
+        r4.site("try_from: type ✓, property present/string/parsed ✓, every index query pair equal, wraps the status: %s" % (okf and saw_mismatch))
+    fn = RBS + "::index"
+    if r4.anchor(F.hir(fn), fn):
+        tab = SR.Table(F, fn, opaque=OPQ4, rule=r4)
+        PROPS = SR.fld("properties", base=SR.fld("0"))
+        oki = False
+        for q in tab.paths:
+            if SR.is_failure(q.ret):
+                continue
+            gets = [e for e in q.calls(r"::get$") if SR.pure(e.args[0], PROPS) and e.args[1] == IDXP and q.succeeded(e) is True]
+            tis = [e for e in q.calls(r"try_index_to_u32$") if gets and SR.derives(e.args[0], ("payload", gets[0].result.t, "Some", 0))]
+            good = bool(tis) and SR.pure(q.ret, tis[0].result.t) and not any(SR.derives(e.args[0], SR.fld("id", base=SR.fld("0"))) for e in q.calls(r"try_index_to_u32$"))
+            if r4.require(good, (fn, "property"), "index() does not return the parse of the wrapped status's INDEX_PROPERTY (the value try_from validated): %s" % (q.ret,)):
+                oki = True
+        r4.require(oki or not tab.paths, (fn, "property"), "index() does not read INDEX_PROPERTY")
+        r4.site("RevocationBitmapStatus::index = try_index_to_u32(self.0.properties[INDEX_PROPERTY] as String): %s" % oki)
+    r4.floor(2)
